@@ -255,6 +255,17 @@ func (v *Validators) SetNewValidators(candidates []*candidates.Candidate) {
 		})
 	}
 
+	// rewards accumulated by validators that leave the set between payouts must not vanish
+	for _, oldVal := range old {
+		if _, removed := oldValidatorsForRemove[oldVal.PubKey]; !removed {
+			continue
+		}
+		if acc := oldVal.GetAccumReward(); acc.Sign() == 1 {
+			oldVal.SetAccumReward(big.NewInt(0))
+			v.bus.App().AddTotalSlashed(acc)
+		}
+	}
+
 	v.lock.Lock()
 	v.removed = oldValidatorsForRemove
 	v.lock.Unlock()
